@@ -175,7 +175,10 @@ func (g *G) SwitchMessageOf(kind string) SwitchMsg {
 			maxp = 300 // the byte budget is soft for the payload: a frame needs room for its headers
 		}
 		g.TruncatedPackets = !g.Avoid["truncated_packet"]
+		// the packet a switch reports is the expectation for a decode: it carries the header length the wire shows
+		g.Avoid["ipv4_ihl_default"] = true
 		pk := g.Ethernet(maxp)
+		delete(g.Avoid, "ipv4_ihl_default")
 		g.TruncatedPackets = false
 		p.Data = *pk.Eth
 		sm.Pkt = &pk
